@@ -171,7 +171,8 @@ INT_T = [
     ("if_else_b", "i", "{b}.if_else({i}, {i})"), ("if_else_i", "i", "LinCombBool({b} + 0).if_else({i}, {K})"),
     ("bits_rt", "i", "LinComb.from_bits({i}.to_bits())"),
     ("bits_w", "i", "LinComb.from_bits({i}.to_bits({w}))"),
-    ("bit0", "b", "{i}.to_bits()[0]"),
+    ("bit0", "b", "{i}.to_bits()[0]"), ("from_bits_any", "i", "LinComb.from_bits([{i}, {i}, {b}, {i}])"),
+    ("from_bits_mixed", "i", "LinComb.from_bits([{b}, {i} * {i}, {K}])"),
     ("tobool", "b", "LinCombBool({b} * {b})"),
 ]
 BOOL_T = [
